@@ -18,6 +18,7 @@
 #define VERIF_OPS_H
 #include "spec.h"
 #include "openssl_model.h"
+extern const void *g_rs_buf, *g_rs_r, *g_rs_s; extern size_t g_rs_rn, g_rs_sn;	/* GnuTLS model: last gnutls_encode_rs_value */
 
 /* HMAC primitive */
 extern const void *g_mac_key;  extern size_t g_mac_keylen;
@@ -40,7 +41,7 @@ extern int g_sgn_done;		/* 1 iff the primitive produced a signature */
 
 #define OPS_PRIM_GHOSTS_MAC g_mac_key, g_mac_keylen, g_mac_data, g_mac_len, g_mac_hash, g_mac_out, g_lib_fail
 #define OPS_PRIM_GHOSTS_VER g_ver_keymat, g_ver_data, g_ver_len, g_ver_hash, g_ver_pss, g_ver_family, g_ver_sig, \
-	g_ver_siglen, g_ver_raw_r, g_ver_raw_s, g_ver_raw_n, g_ver_valid, g_der_buf, g_der_sig, g_lib_fail, g_ver_calls
+	g_ver_siglen, g_ver_raw_r, g_ver_raw_s, g_ver_raw_n, g_ver_valid, g_der_buf, g_der_sig, g_lib_fail, g_ver_calls, g_rs_buf, g_rs_r, g_rs_s, g_rs_rn, g_rs_sn
 #define OPS_PRIM_GHOSTS_SGN g_sgn_keymat, g_sgn_data, g_sgn_len, g_sgn_hash, g_sgn_pss, g_sgn_done, g_lib_fail
 #define OPS_GHOST_ASSIGNS_SIGN g_mac_key, g_mac_keylen, g_mac_data, g_mac_len, g_mac_hash, g_mac_out, OPS_PRIM_GHOSTS_SGN
 #define OPS_GHOST_ASSIGNS g_mac_key, g_mac_keylen, g_mac_data, g_mac_len, g_mac_hash, g_mac_out, g_sgn_keymat, g_sgn_data, g_sgn_len, g_sgn_hash, g_sgn_pss, g_sgn_done, OPS_PRIM_GHOSTS_VER
@@ -83,11 +84,11 @@ __CPROVER_ensures(__CPROVER_return_value == 0 || __CPROVER_return_value == 1) \
 /* success: the MAC of exactly (str, str_len) under exactly the key's octets \
  * with the hash the algorithm names, written to a fresh buffer */ \
 __CPROVER_ensures(__CPROVER_return_value == 0 ==> ( \
-	*len == (unsigned int)SPEC_HASH_BITS(jwt->alg) / 8 && __CPROVER_is_fresh(*out, 64) && \
+	*len == (unsigned int)SPEC_HASH_BITS(jwt->alg) / 8 && __CPROVER_is_fresh(*out, *len) && \
 	g_mac_key == jwt->key->oct.key && g_mac_keylen == jwt->key->oct.len && \
 	g_mac_data == str && g_mac_len == str_len && g_mac_hash == SPEC_HASH_BITS(jwt->alg) && \
 	g_mac_out == *out)) \
-__CPROVER_ensures(__CPROVER_return_value != 0 ==> *out == NULL)
+__CPROVER_ensures(__CPROVER_return_value != 0 ==> (*out == NULL || *out == __CPROVER_old(*out)))
 
 DECL_OPS_SIGN_SHA_HMAC(contract_ops_sign_sha_hmac, GATE_HMAC_FULL);
 DECL_OPS_SIGN_SHA_HMAC(contract_all_ops_sign_sha_hmac, GATE_HMAC_FULL);
@@ -102,6 +103,9 @@ __CPROVER_requires(OPS_JWT_VALID(jwt)) \
 __CPROVER_requires(SPEC_IS_ASYM(jwt->alg)) \
 GATE \
 __CPROVER_requires(__CPROVER_w_ok(out, sizeof(*out)) && __CPROVER_w_ok(len, sizeof(*len))) \
+/* the result pointer starts out NULL (the GnuTLS routine releases *out on its \
+ * early error paths before it has initialised it) */ \
+__CPROVER_requires(*out == NULL) \
 __CPROVER_requires(SPEC_ERRMSG_TERMINATED(jwt)) \
 __CPROVER_assigns(*out, *len, jwt->error, SPEC_ERRMSG_FRAME(jwt), OPS_PRIM_GHOSTS_SGN) \
 /* failure is signalled through the return value AND the per-call flag */ \
@@ -109,7 +113,8 @@ __CPROVER_ensures(__CPROVER_return_value != 0 ==> jwt->error != 0) \
 __CPROVER_ensures(__CPROVER_return_value == 0 ==> ( \
 	jwt->error == 0 && *len >= 1 && *len <= 1024 && __CPROVER_is_fresh(*out, *len) && g_sgn_done == 1 && \
 	OPS_KEYMAT_OF(jwt, g_sgn_keymat) && g_sgn_data == str && g_sgn_len == str_len && \
-	g_sgn_hash == SPEC_HASH_BITS(jwt->alg) && g_sgn_pss == SPEC_IS_PS(jwt->alg) && \
+	(SPEC_IS_ED(jwt->alg) || g_sgn_hash == SPEC_HASH_BITS(jwt->alg)) /* EdDSA: the digest argument is a formality */ && \
+	g_sgn_pss == SPEC_IS_PS(jwt->alg) && \
 	/* ES*: fixed-width r||s (RFC 7518 3.4) */ \
 	(SPEC_IS_ES(jwt->alg) ==> *len == 2 * SPEC_EC_N(jwt->key->bits)))) \
 __CPROVER_ensures(SPEC_ERRMSG_TERMINATED(jwt)) \
